@@ -213,7 +213,7 @@ def run(tier, seed):
             raise vlib.ToolError("edge dump unexpectedly small")
         sc1 = edge_scenarios(mbt["edges"])
         n1, s1 = validate(sc1, wd, "edges", rep, 8)
-        sc2 = random_scenarios(rng, 200 if q else 4000, 14 if q else 24)
+        sc2 = random_scenarios(rng, 200 if q else 12000, 14 if q else 24)
         n2, s2 = validate(sc2, wd, "rnd", rep, 8 if q else 14)
         shapes = set()
         for s in sc1 + sc2:
